@@ -82,6 +82,8 @@ func main() {
 	fastT := flag.Int("fast-timeout", 3000, "feasibility query timeout ms")
 	strongT := flag.Int("timeout", 60000, "obligation query timeout ms")
 	trace := flag.Bool("trace", false, "record call traces")
+	prefixStr := flag.String("prefix", "", "forced values of the first Choose calls (sharding), comma separated")
+	symPtrs := flag.Bool("symptr", true, "guarded loads/stores through symbolically indexed pointers instead of forking")
 	record := flag.Bool("record", false, "record heap accesses with held locks (C17)")
 	flag.Parse()
 
@@ -154,7 +156,7 @@ func main() {
 			results = append(results, &Result{Harness: name, Pkg: *pkgPath, Status: "inconclusive", Error: "no such harness function"})
 			continue
 		}
-		res := runHarness(prog, spkgs[0], f, params, *tier, *steps, *merge, *mergeCap, *solver, *fastT, *strongT, *smtlog, *verbose, *trace, *record)
+		res := runHarness(prog, spkgs[0], f, params, *tier, *steps, *merge, *mergeCap, *solver, *fastT, *strongT, *smtlog, *verbose, *trace, *record, *symPtrs, *prefixStr)
 		res.Pkg = *pkgPath
 		res.LoadS = tLoad.Seconds()
 		results = append(results, res)
@@ -183,7 +185,7 @@ func emit(results []*Result, out string) {
 }
 
 func runHarness(prog *ssa.Program, pkg *ssa.Package, f *ssa.Function, params map[string]int, tier, steps int, merge bool, mergeCap int,
-	solver string, fastT, strongT int, smtlog string, verbose, trace, record bool) (res *Result) {
+	solver string, fastT, strongT int, smtlog string, verbose, trace, record, symPtrs bool, prefixStr string) (res *Result) {
 	res = &Result{Harness: f.Name(), Params: params, Tier: tier, Kinds: map[string]int{}}
 	fb, fa := solverCmd("z3", fastT)
 	fast := NewSolver(fb, fa...)
@@ -205,7 +207,7 @@ func runHarness(prog *ssa.Program, pkg *ssa.Package, f *ssa.Function, params map
 	e := &Engine{prog: prog, fast: fast, strong: strong, globals: map[*ssa.Global]int{}, maxSteps: steps, verbose: verbose,
 		reached: map[string]int{}, witnessed: map[string]bool{}, params: params, tier: tier, merge: merge, mergeCap: mergeCap,
 		base: map[int]*Obj{}, fninfo: map[*ssa.Function]*fnInfo{}, funcsHit: map[string]int{}, asserts: map[string]*AssertStat{},
-		overrides: map[string]*ssa.Function{}, stubsUsed: map[string]int{}, traceOn: trace}
+		mergeOK: map[siteKey]int{}, mergeBad: map[siteKey]int{}, overrides: map[string]*ssa.Function{}, overrideGroup: map[*ssa.Function]string{}, stubsUsed: map[string]int{}, traceOn: trace}
 	defer func() {
 		if r := recover(); r != nil {
 			res.Status = "inconclusive"
@@ -216,9 +218,15 @@ func runHarness(prog *ssa.Program, pkg *ssa.Package, f *ssa.Function, params map
 	// simpler: functions whose name starts with "VerifOverride_" carry the target in a companion string constant.
 	for name, m := range pkg.Members {
 		if c, ok := m.(*ssa.NamedConst); ok && strings.HasPrefix(name, "VerifOverrideTarget_") {
-			fn := pkg.Func("VerifOverride_" + strings.TrimPrefix(name, "VerifOverrideTarget_"))
+			key := strings.TrimPrefix(name, "VerifOverrideTarget_")
+			fn := pkg.Func("VerifOverride_" + key)
 			if fn != nil {
+				group := ""
+				if i := strings.Index(key, "__"); i >= 0 {
+					group = key[:i]
+				}
 				e.overrides[strings.Trim(c.Value.Value.ExactString(), "\"")] = fn
+				e.overrideGroup[fn] = group
 			}
 		}
 	}
@@ -251,6 +259,33 @@ func runHarness(prog *ssa.Program, pkg *ssa.Package, f *ssa.Function, params map
 	e.stubsUsed = map[string]int{}
 	e.stats = Stats{}
 	e.record = record
+	e.symPtrs = symPtrs
+	e.absHashMod = true
+	for _, p := range strings.Split(prefixStr, ",") {
+		if p != "" {
+			v, _ := strconv.Atoi(p)
+			e.prefix = append(e.prefix, v)
+		}
+	}
+	if os.Getenv("VERIF_QPROF") != "" {
+		e.qprof = map[string]int{}
+		defer func() {
+			type kv struct {
+				k string
+				v int
+			}
+			var l []kv
+			for k, v := range e.qprof {
+				l = append(l, kv{k, v})
+			}
+			sort.Slice(l, func(i, j int) bool { return l[i].v > l[j].v })
+			for i, x := range l {
+				if i < 15 {
+					fmt.Fprintf(os.Stderr, "QPROF %6d %s\n", x.v, x.k)
+				}
+			}
+		}()
+	}
 
 	st := &State{objs: map[int]*Obj{}, known: map[int]bool{}, epoch: e.newEpoch()}
 	e.pushFrame(st, f, nil, nil, false)
